@@ -22,6 +22,18 @@ def sub(name, run, spec, imports, quick, thorough, compare=None):
 
 W_IMPORTS = ["Run.World"]
 
+
+def proj_c11(obs):
+    """paths are compared for validity and length (by spec_C11), not for identity: a tie may be broken differently"""
+    if isinstance(obs, tuple) and obs and obs[0] == "Ok" and isinstance(obs[1], tuple):
+        ts, ps = obs[1][1], obs[1][2]
+        out = []
+        for p in ps:
+            _, a, b, da, pa, dt, pt = p
+            out.append(("", a, b, da, [len(x) for x in pa], dt, [len(x) for x in pt]))
+        return ("Ok", ("", ts, out))
+    return obs
+
 PROPS = {
     "C01": {
         "subs": [sub("C01", "run_C01", "spec_C01", W_IMPORTS + ["Run.C01"], 400, 4000)],
@@ -47,6 +59,22 @@ PROPS = {
                 "(Flocq binary32 division and multiplication, runtime logf supplied as a table on exactly the quotients that occur)",
         "trust": ["Flocq 4.1 binary32 (IEEE-754) as the meaning of Rust f32 + - * /", "platform logf: oracle table produced by the harness with f32::ln"],
         "assumptions": ["logf is sampled, not specified: the float layer of C03 is partial (DESIGN.md §2.6)"],
+    },
+    "C13": {
+        "subs": [sub("C13", "run_C13", "spec_C13", W_IMPORTS + ["Run.C13"], 200, 2000)],
+        "run_modules": ["C13"],
+        "rule": "ontologies (Builder and binary v1-v3 with obsolete / replaced terms, replacements that resolve, dangle or collide with members) x "
+                "8 subsets each (empty, all terms, random thirds, ancestor+descendant pairs, replaced term together with its replacement); "
+                "non-trivial = ontology with at least one obsolete or replaced term",
+        "trust": [], "assumptions": ["members of a set are terms of the ontology (HpoSet::new's contract)"],
+    },
+    "C14": {
+        "subs": [sub("C14", "run_C14", "spec_C14", W_IMPORTS + ["Run.C14"], 300, 3000)],
+        "run_modules": ["C14"],
+        "rule": "source ontologies (Builder / binary) x root (a term with >= 2 descendants when possible, or HP:1) x 1-5 leaves (below root, "
+                "duplicates, leaf == root, nested leaves, 1 in 12 outside root's subtree), annotations on phenotype terms, modifier descendants "
+                "and modifier roots; non-trivial = valid call with >= 2 leaves",
+        "trust": [], "assumptions": ["root and leaves are terms of the source ontology", "non-empty leaf collection"],
     },
     "C15": {
         "subs": [sub("C15", "run_C15", "spec_C15", W_IMPORTS + ["Run.C15"], 500, 5000)],
@@ -86,6 +114,14 @@ PROPS = {
                 "for each file: the file itself, EVERY proper prefix, 4 suffixes, 6-12 version bytes; non-trivial = file with both roots",
         "trust": ["harness/src/bin.rs encoder as the definition of 'laid out according to the documented format'"],
         "assumptions": ["v1 terms section shorter than 0x48504F00 bytes (else it is indistinguishable from the magic)"],
+    },
+    "C11": {
+        "subs": [dict(sub("C11", "run_C11", "spec_C11", W_IMPORTS + ["Run.C11"], 250, 2500), proj=proj_c11)],
+        "run_modules": ["C11"],
+        "rule": "ontologies of 2-11 terms (thorough up to 22) from the Builder and binary files, with redundant shortcut edges (an ancestor that is "
+                "also a direct parent), tied diamonds, several roots and disconnected terms; ALL ordered pairs of terms, four queries each; "
+                "non-trivial = diamond and depth >= 3",
+        "trust": [], "assumptions": ["acyclic is_a graphs"],
     },
     "C12": {
         "subs": [sub("C12", "run_C12", "spec_C12", ["Run.C12"], 3000, 30000)],
